@@ -514,25 +514,45 @@ def rule_comment_wrappers(ctx):
         ctx.check(calls in (["$P1"], ["(. $P1 root)"]), rule, "%s:trailing" % f, "%s emits trailing comments for %s, not for its root entity"
                   % (f, calls), facts.bodies()[fn]["loc"], detail={"root": f})
     readers = {}
+    testers = {}
     for p, bd in facts.bodies().items():
         if not p.startswith(PRETTY) or bd["tag"].endswith("-test"):
             continue
         h = facts.hir(p)
         if h is None:
             continue
+        par = {}
+        st = [(h["body"], None)]
+        while st:
+            x, q = st.pop()
+            if isinstance(x, dict):
+                par[id(x)] = q
+                for c in H.children(x):
+                    st.append((c, x))
         for n, c in H.calls(h["body"]):
             m = re.search(r"SurfaceTrivia::(leading_comments|before_arm_comments|trailing_comments)$", c)
-            if m:
-                readers.setdefault(m.group(1), set()).add(p.split("::{closure")[0].split("::")[-1])
-    EMIT = {"leading_comments": "with_leading_comments", "before_arm_comments": "with_before_arm_comments", "trailing_comments": "with_trailing_comments"}
-    AUDITED_TESTS = {"is_trivia_free", "constructor_argument_gap", "scope_boundary_allows_merging", "transparent_pattern_group", "manifest_parameter_view", "term_with_requirement",
-                     "infix_chain", "separated_group_layout", "delimited_with_spacing", "parameter_telescope"}
+            if not m:
+                continue
+            # a presence / property test: the list flows, as a receiver, only into a boolean (is_empty, last().is_some_and(..), any ..)
+            cur, q = n, par.get(id(n))
+            only_tests = False
+            for _ in range(6):
+                while q is not None and H.kind(q) in ("AddrOf", "Use", "Type", "Unary"):
+                    cur, q = q, par.get(id(q))
+                if q is None or H.kind(q) != "MethodCall" or H.peel(q["recv"]) is not cur and q["recv"] is not cur:
+                    break
+                if (q.get("ty") or "") == "bool":
+                    only_tests = True
+                    break
+                cur, q = q, par.get(id(q))
+            who = p.split("::{closure")[0].split("::")[-1]
+            (testers if only_tests else readers).setdefault(m.group(1), set()).add(who)
+    EMIT = {"leading_comments": {"with_leading_comments"}, "before_arm_comments": {"with_before_arm_comments"}, "trailing_comments": {"with_trailing_comments"}}
     for table, emit in EMIT.items():
         got = readers.get(table, set())
-        emitters = got - AUDITED_TESTS
-        ctx.check(emit in got and emitters <= {emit}, rule, "table:%s" % table, "SurfaceTrivia::%s is read by %s; expected the emitter %s (other "
-                  "readers only test for presence and are audited by name)" % (table, sorted(got), emit), None,
-                  detail={"table": table, "readers": sorted(got)})
+        ctx.check(got == emit, rule, "table:%s" % table, "the comments of SurfaceTrivia::%s are consumed by %s; expected exactly the emitter %s "
+                  "(functions that only test the list for emptiness are not consumers: %s)" % (table, sorted(got), sorted(emit), sorted(testers.get(table, set()))),
+                  None, detail={"table": table, "emitter": sorted(got), "presence_tests": sorted(testers.get(table, set()))})
     for f in ("with_comments", "with_trailing_comments"):
         fn = FORMATTER + f
         h = ctx.need_hir(rule, fn)
@@ -645,22 +665,45 @@ def rule_ctor_gap(ctx):
                 if H.kind(r) == "MethodCall" and r["name"] == "constructor":
                     n += 1
                     a = H.peel(node["args"][0])
-                    ok = H.kind(a) == "MethodCall" and a["name"] == "constructor_argument_gap"
+                    ok = H.kind(a) == "MethodCall" and a["name"] in ("constructor_argument_gap", "pattern_constructor_argument_gap")
                     f = p.split("::")[-1]
                     if f in ("data",):
                         ok = True     # `| +C : param`: followed by the ` :` separator of the arm
                     ctx.check(ok, rule, "%s:constructor" % f, "%s appends %s directly to a constructor name: a line comment leading the "
                               "argument is fused into the identifier (`+C-- c`)" % (f, a.get("name") or H.kind(a)), [bd["loc"][0], node.get("ln")],
                               detail={"fn": f, "after_name": a.get("name") if isinstance(a, dict) else None})
+                    # the gap helper must look as far as the argument printer does: through the groups that printer elides
+                    if ok and H.kind(a) == "MethodCall":
+                        parent = _append_parent(h["body"], node)
+                        nxt = H.peel(parent["args"][0]) if parent is not None else None
+                        printer = nxt["name"] if nxt is not None and H.kind(nxt) == "MethodCall" else None
+                        pf = FORMATTER + printer if printer else None
+                        gf = FORMATTER + a["name"]
+                        if pf in facts.bodies() and gf in facts.bodies():
+                            pcalls = [c.split("::")[-1] for _, c in H.calls(facts.hir(pf)["body"])]
+                            gcalls = [c.split("::")[-1] for _, c in H.calls(facts.hir(gf)["body"])]
+                            elides = "should_elide_parentheses" in pcalls and printer in pcalls
+                            ctx.check((not elides) or "should_elide_parentheses" in gcalls, rule, "%s:gap-follows-elision" % f,
+                                      "%s elides singleton groups around the argument (printing their comments first) but %s tests only the "
+                                      "argument itself: a comment on an elided group still touches the constructor name" % (printer, a["name"]),
+                                      [bd["loc"][0], node.get("ln")], detail={"printer": printer, "gap": a["name"], "printer_elides": elides})
     ctx.floor(rule, "constructor names followed by a document", n, 2)
-    fn = FORMATTER + "constructor_argument_gap"
-    if fn not in facts.bodies():
-        ctx.anchor_lost(rule, "constructor_argument_gap not found")
-        return
-    h = ctx.need_hir(rule, fn)
-    cs = [c.split("::")[-1] for _, c in H.calls(h["body"])]
-    ctx.check("leading_comments" in cs and "is_empty" in cs, rule, "gap:condition", "constructor_argument_gap no longer tests the argument's leading "
-              "comments (%s)" % cs, facts.bodies()[fn]["loc"], detail={"calls": cs})
+    for g in ("constructor_argument_gap", "pattern_constructor_argument_gap"):
+        fn = FORMATTER + g
+        if fn not in facts.bodies():
+            continue
+        h = ctx.need_hir(rule, fn)
+        cs = [c.split("::")[-1] for _, c in H.calls(h["body"])]
+        ctx.check("leading_comments" in cs and "is_empty" in cs, rule, "%s:condition" % g, "%s no longer tests leading comments (%s)" % (g, cs),
+                  facts.bodies()[fn]["loc"], detail={"calls": cs})
+
+
+def _append_parent(body, node):
+    """the `.append(..)` call whose receiver is `node`"""
+    for x in H.walk(body):
+        if H.kind(x) == "MethodCall" and x["name"] == "append" and H.peel(x["recv"]) is node:
+            return x
+    return None
 
 
 def rule_exists_parens(ctx):
